@@ -3,6 +3,7 @@
 __all__ = ['_defaultFetcher']
 
 import functools
+import http.client
 import urllib.error
 import urllib.request
 
@@ -49,6 +50,9 @@ def _defaultFetcher(url):
     except ValueError as e:
         # invalid url, e.g. "1"
         log.warn('ValueError, %s' % e.args[0], error=ValueError)
+    except http.client.HTTPException as e:
+        # e.g. InvalidURL for a URL containing control characters or spaces
+        log.warn('HTTPException, %r' % e, error=ValueError)
     else:
         if res:
             mimeType, encoding = encutils.getHTTPInfo(res)
